@@ -28,6 +28,11 @@ theorem refElem_facts {env : Env} {name : Bytes} (h : aliasOf env name = none) :
   · simp [isByteElem, repr_ref h]
   · simp [writeImplicit, repr_ref h]
 
+theorem ifaceElem_facts (env : Env) (id : Bytes) :
+    typ3 env (.iface id) = .blen ∧ isByteElem env (.iface id) = false ∧ writeImplicit env (.iface id) = false ∧
+      isStructKind env (.iface id) = false ∧ isUnpackedList env (.iface id) = false := by
+  exact ⟨rfl, rfl, rfl, rfl, rfl⟩
+
 /-- the first byte of a varint is 0 only for the value 0. -/
 theorem encUvarint_head_zero {n : Nat} {rest : Bytes} (h : encUvarint n = 0 :: rest) : n = 0 := by
   by_cases hlt : n < 128
